@@ -125,6 +125,11 @@ DROPPED = dict(Q.DROPPED, **{
     "np.zeros dtype": "`np.zeros([], dtype=int|bool)` is a 0-d array holding one zero: `Val.arr [0]`, the dtype is dropped "
                       "(TopoART.adjacency / _permanent_mask are no protocol parameters)",
     "bool values": "`True`/`False` stored as a parameter value are the ints 1/0 (bool is a subclass of int; `Val` has no bool)",
+    "learned-state save/restore": "a pair `c = m.weight_sample_counter_` … `m.weight_sample_counter_ = c` on a nested "
+                                  "estimator m (DualVigilanceART.__init__ keeps a trained module's counters across "
+                                  "BaseART.__init__'s reset, fix F47): learned state is not part of the parameter protocol "
+                                  "modelled here; the local is used nowhere else (checked); that construction leaves a fitted "
+                                  "module unchanged is C19's construction oracle",
     "property setters": "DualVigilanceART / TopoART / CVIART define properties with setters (W, labels_, dim_, "
                         "weight_sample_counter_) that redirect a write to the base module; `BaseART.__init__`'s "
                         "`self.weight_sample_counter_ = []` therefore lands in the base module for DualVigilanceART, and is "
@@ -452,10 +457,40 @@ def is_dropped(s) -> bool:
     return False
 
 
+# attributes of a nested estimator that hold what it has LEARNED (not its parameters): outside the parameter protocol
+LEARNED_STATE = {"weight_sample_counter_"}
+
+
+def save_restore_pairs(stmts) -> set[int]:
+    """indices of the two statements of a pair  `<local> = <name>.<a>`  …  `<name>.<a> = <local>`  (a in LEARNED_STATE,
+    <name> a plain name other than self, the same <name> and <a> in both, <local> occurring nowhere else in the block):
+    the learned state of a nested estimator is saved and put back around the statements in between.  The parameter
+    protocol this translator models has no such attribute (Q2.Ext: params / get_params / set_params / validate_params),
+    the local cannot reach any other statement, so the pair is dropped (DROPPED["learned-state save/restore"])."""
+    out = set()
+    for i, s in enumerate(stmts):
+        if not (isinstance(s, ast.Assign) and len(s.targets) == 1 and isinstance(s.targets[0], ast.Name)
+                and isinstance(s.value, ast.Attribute) and isinstance(s.value.value, ast.Name)
+                and s.value.value.id != "self" and s.value.attr in LEARNED_STATE):
+            continue
+        local, owner, attr = s.targets[0].id, s.value.value.id, s.value.attr
+        for j in range(i + 1, len(stmts)):
+            r = stmts[j]
+            if (isinstance(r, ast.Assign) and len(r.targets) == 1 and isinstance(r.targets[0], ast.Attribute)
+                    and isinstance(r.targets[0].value, ast.Name) and r.targets[0].value.id == owner
+                    and r.targets[0].attr == attr and isinstance(r.value, ast.Name) and r.value.id == local):
+                uses = sum(1 for t in stmts for n in ast.walk(t) if isinstance(n, ast.Name) and n.id == local)
+                if uses == 2:
+                    out |= {i, j}
+                break
+    return out
+
+
 def block(stmts, cx, I, tail):
     """qtrans.block with the dropping rules above and the rule for an `if` that falls through"""
     out = []
-    stmts = [s for s in stmts if not is_dropped(s)]                            # DROPPED
+    pairs = save_restore_pairs(stmts)
+    stmts = [s for k, s in enumerate(stmts) if k not in pairs and not is_dropped(s)]      # DROPPED
     for idx, s in enumerate(stmts):
         rest = stmts[idx + 1:]
         if isinstance(s, ast.If) and not s.orelse and not Q.terminates(s.body):
